@@ -133,9 +133,16 @@ func runC15(r *ev.Run, thorough bool) {
 	if thorough {
 		maxValid, maxTrunc, depth = 40, 30, 2
 	}
-	r.Rule = fmt.Sprintf("per type: events = up to %d valid wires (bases Z, D and every structural deviation: list lengths 0..3/255..257, every registered key, text lengths) + up to %d failing truncations at field boundaries; ALL event sequences of length <= %d decoded into ONE receiver starting from {fresh, hand-dirtied with the long variant, hand-dirtied with bodies of other registered types, key field naming one type while holding a body of another}, then every valid wire decoded into that receiver and into a fresh one; plus EVERY canonical V1 wire decoded into each hand-dirtied receiver; oracle: equal results; states = distinct receiver contents reached, transitions = decode events applied; distinct = (type,start,event sequence,final)", maxValid, maxTrunc, depth)
+	r.Rule = fmt.Sprintf("per type: events = up to %d valid wires (bases Z, D and every structural deviation: list lengths 0..3/255..257, every registered key, text lengths) + up to %d failing truncations at field boundaries and wires with unregistered discriminators; ALL event sequences of length <= %d decoded into ONE receiver starting from {fresh, hand-dirtied with the long variant, hand-dirtied with bodies of other registered types, key field naming one type while holding a body of another}, then every valid wire decoded into that receiver and into a fresh one; plus EVERY canonical V1 wire decoded into each hand-dirtied receiver; oracle: equal results; states = distinct receiver contents reached, transitions = decode events applied; distinct = (type,start,event sequence,final)", maxValid, maxTrunc, depth)
 	parTypes(r, bind.Types, func(t *rm.Type, l *ev.Local) {
 		valid, trunc := c15Events(t, maxValid, maxTrunc)
+		if t.DynField() >= 0 {
+			// wires with unregistered discriminators: they fail in a fresh receiver, possibly after overwriting the key
+			uk := unknownKeyWires(t)
+			for i := 0; i < len(uk) && i < 3; i++ {
+				trunc = append(trunc, uk[i*len(uk)/3])
+			}
+		}
 		events := append(append([][]byte{}, valid...), trunc...)
 		starts := []*rm.Value{nil, valenum.Long(t)}
 		if t.DynField() >= 0 {
@@ -156,7 +163,11 @@ func runC15(r *ev.Run, thorough bool) {
 			seq := make([][]byte, 0, depth)
 			var rec func() bool
 			rec = func() bool {
-				for fi, f := range valid {
+				finals := valid
+				if len(seq) >= 1 {
+					finals = events // after some history also the failing wires: accept/reject must not depend on the receiver
+				}
+				for fi, f := range finals {
 					key := ev.H(fmt.Sprint(t.QName(), si, fi, len(seq)) + strings.Join(bytesToStrings(seq), "|"))
 					l.Eval(key, len(seq) > 0 || st != nil)
 					l.Traces++
